@@ -1,4 +1,6 @@
-package wire
+// Package mempipe provides the buffered in-memory connection used by the C05
+// and C16 checks (kept out of the shared wire package).
+package mempipe
 
 import (
 	"bytes"
@@ -19,8 +21,8 @@ import (
 func C05Pipe(clientAddr, serverAddr string) (client, server *C05Conn) {
 	c2s := newC05Half()
 	s2c := newC05Half()
-	client = &C05Conn{rd: s2c, wr: c2s, local: addr(clientAddr), remote: addr(serverAddr)}
-	server = &C05Conn{rd: c2s, wr: s2c, local: addr(serverAddr), remote: addr(clientAddr)}
+	client = &C05Conn{rd: s2c, wr: c2s, local: pipeAddr(clientAddr), remote: pipeAddr(serverAddr)}
+	server = &C05Conn{rd: c2s, wr: s2c, local: pipeAddr(serverAddr), remote: pipeAddr(clientAddr)}
 	return client, server
 }
 
@@ -42,7 +44,7 @@ func newC05Half() *c05Half {
 // C05Conn is one end of a C05Pipe.
 type C05Conn struct {
 	rd, wr        *c05Half
-	local, remote addr
+	local, remote pipeAddr
 
 	dmu       sync.Mutex
 	rDeadline time.Time
@@ -162,3 +164,8 @@ func (c *C05Conn) SetReadDeadline(t time.Time) error {
 }
 
 func (c *C05Conn) SetWriteDeadline(t time.Time) error { return nil }
+
+type pipeAddr string
+
+func (a pipeAddr) Network() string { return "mem" }
+func (a pipeAddr) String() string  { return string(a) }
